@@ -599,6 +599,33 @@ func oracle(cs *CaseSpec, pf []parsedFile, main histResult, f *failer, input str
 		}
 	}
 
+	// required attributes: reported iff no file can give the attribute
+	{
+		have := map[string]bool{}
+		for _, fi := range fileOrder(cs) {
+			for _, n := range attrCapable(fi) {
+				have[n] = true
+			}
+		}
+		for i, p := range cs.Parts {
+			rep.Hist("oracle:required-checked")
+			reported := map[string]bool{}
+			for _, d := range main.Steps[i].Diags {
+				if d.Kind == "MissingRequired" {
+					reported[d.Name] = true
+				}
+			}
+			for _, a := range p.Attrs {
+				if a.Required && !have[a.Name] && !reported[a.Name] {
+					f.fail("item-lost", "missing-required-not-reported", fmt.Sprintf("step %d: required attribute %q is absent but no diagnostic says so", i+1, a.Name), input)
+				}
+				if have[a.Name] && reported[a.Name] {
+					f.fail("extra-item", "missing-required-reported-for-present-attribute", fmt.Sprintf("step %d: attribute %q is present (and not consumed before) but reported as missing", i+1, a.Name), input)
+				}
+			}
+		}
+	}
+
 	// (O2) exactly once: blocks, per type, in source order
 	entries := map[string][]SBlock{}
 	for _, p := range cs.Parts {
@@ -736,6 +763,16 @@ func oracle(cs *CaseSpec, pf []parsedFile, main histResult, f *failer, input str
 
 func hclFile(src string) FileSpec  { return FileSpec{Syntax: "hcl", Src: src} }
 func jsonFile(src string) FileSpec { return FileSpec{Syntax: "json", Src: src} }
+func withCfg(f FileSpec, items ...Item) FileSpec {
+	f.Cfg = &Cfg{Items: items}
+	f.TypeLabels = map[string]int{}
+	for _, it := range items {
+		if !it.IsAttr() {
+			f.TypeLabels[it.Type] = len(it.Labels)
+		}
+	}
+	return f
+}
 func single(f FileSpec, expand bool, parts ...Schema) *CaseSpec {
 	return &CaseSpec{Files: []FileSpec{f}, Children: []Child{{Files: []int{0}, Expand: expand}}, Parts: parts}
 }
@@ -758,8 +795,11 @@ func sa(names ...string) []SAttr {
 func corpus() []*CaseSpec {
 	blk0 := []SBlock{{"blk", 0}}
 	return []*CaseSpec{
-		single(hclFile("a = 1\nblk {}\n"), false, Schema{Blocks: blk0}, Schema{Attrs: sa("a")}),
-		single(hclFile("a = 1\nb = 2\n"), true, Schema{Attrs: sa("a")}, Schema{Attrs: sa("b")}),
+		// minimal forms of the two findings (with abstract configuration, so the oracle applies)
+		single(withCfg(hclFile("a = 1\nblk {}\n"), Item{Attr: "a", Val: 1}, Item{Type: "blk", Body: &Cfg{}}), false,
+			Schema{Blocks: blk0}, Schema{Attrs: sa("a")}),
+		single(withCfg(hclFile("a = 1\nb = 2\n"), Item{Attr: "a", Val: 1}, Item{Attr: "b", Val: 2}), true,
+			Schema{Attrs: sa("a")}, Schema{Attrs: sa("b")}),
 		single(jsonFile(`{"x": {"l": {}}}`), false, Schema{Blocks: []SBlock{{"x", 1}}}, Schema{Attrs: sa("x")}),
 		single(jsonFile(`{"x": {"l": {}}}`), false, Schema{Attrs: sa("x")}, Schema{Blocks: []SBlock{{"x", 1}}}),
 		merged([]FileSpec{hclFile("a = 1\n"), jsonFile(`{"b": 2, "a": 3}`)}, false, Schema{Attrs: sa("b!", "c!")}, Schema{Attrs: sa("a!")}),
